@@ -15,6 +15,7 @@
      T f p       sc_trace_file = (f ? trace stream : NULL); sc_trace_prio = p
      L p c q m   sc_log        Lv p c q m   sc_logf      G p c q m  SC_GEN_LOG     Gf p c q m  SC_GEN_LOGF
      W p b       sweep: sc_log for categories -1..3 x priorities -2..11, message numbers b, b+1, ...
+     Wv p b      the same sweep through sc_logf (any package id: sc_logv maps it like sc_log does)
    Before every scenario but the first the library is reset (sc_finalize_noabort, default log settings). */
 #include <sc.h>
 #include <stdio.h>
@@ -22,6 +23,7 @@
 #include <string.h>
 #include <ctype.h>
 #include <unistd.h>
+#include <signal.h>
 
 #define BUILTIN 99
 typedef struct { long k, h, s, p, c, q, m; } ev_t;
@@ -96,6 +98,21 @@ static void cap_drain (cap_t * c, int closed)
       }
     }
     push (0, BUILTIN, c->id, wp, wi, tr, msg_id (q));
+  }
+}
+
+/* libsc reports a fatal condition with printf (captured above) and abort (): show that text on stderr,
+   so that the check can say where the process ended */
+static void on_abort (int sig)
+{
+  static const char pre[] = "c19_harness: abort (); last text on stdout: ";
+  (void) sig;
+  signal (SIGABRT, SIG_DFL);
+  if (capS.f != NULL) {
+    fflush (capS.f);
+    if (capS.buf != NULL && capS.len > capS.pos) {
+      if (write (2, pre, sizeof pre - 1) < 0 || write (2, capS.buf + capS.pos, capS.len - capS.pos) < 0) return;
+    }
   }
 }
 
@@ -200,6 +217,10 @@ static void run_scenario (char *line)
       int c, q; long m = a[1];
       for (c = -1; c <= 3; c++) for (q = -2; q <= 11; q++) do_log ((int) a[0], c, q, m++);
     }
+    else if (!strcmp (name, "Wv")) {
+      int c, q; long m = a[1];
+      for (c = -1; c <= 3; c++) for (q = -2; q <= 11; q++) sc_logf ("fn.c", 7, (int) a[0], c, q, "M%ld\n", m++);
+    }
     else { fprintf (stderr, "c19_harness: unknown operation '%s'\n", name); exit (2); }
     flush_group (first);
     first = 0;
@@ -218,6 +239,7 @@ int main (int argc, char **argv)
   sc_MPI_Comm_rank (sc_MPI_COMM_WORLD, &rank);
 #endif
   unsetenv ("SC_TRACE_FILE");
+  signal (SIGABRT, on_abort);
   if (argc > 1) { in = fopen (argv[1], "r"); if (in == NULL) { perror (argv[1]); return 2; } }
   if (argc > 2) {
     char path[4096];
